@@ -22,8 +22,8 @@ TEXT = {
          'Bounded: trees of <= 3 nodes (4 in thorough). LruCacheSet / LruCacheMap are NOT under contract. Assert-mode enforcement (assigns not checked).'),
  'C14': ('layered contracts per digest: constructor == standard H0; process() == stream-to-block contract (blocks fed are the consecutive slices of buffer ++ data, tail buffered, length counts compressed bits) with the compression function abstracted by a logging stub and a ghost stream offset; finalize() == standard padding for every curlen_; compression == transcription of RFC 1321 / FIPS 180-4 in the thorough tier',
          'Bounded: one process() call <= two blocks + 7 bytes. Reference text spec/digest_spec.h (constants generated from definitions, validated against hashlib each run). digest_hex wrappers and SipHash not under contract. Assert-mode enforcement for process/finalize.'),
- 'C01': ('insert, erase_one, erase(key), exists, count, find, lower/upper_bound, begin/end, iterator ++/--, clear/destructor of btree_set / btree_multiset enforced from an arbitrary well-formed tree of depth <= 2 against the view (count of a ghost key, rank in leaf-chain order)',
-         'Bounded: leaf/inner slots 4/4, depth <= 2 before and after (no growth to depth 3, no inner-level rebalancing), 8-bit keys, set/multiset only. map/multimap, erase(iterator), copy/assign/swap/bulk_load/comparisons not under contract. Assert-mode enforcement; pointer and bounds checks only.'),
+ 'C01': ('the seven node primitives on arbitrary node contents (complete for capacity 4/4, frame checked) and constructor, insert, erase_one, erase(iterator), exists, count, find, lower/upper_bound, begin/end, iterator ++/--, clear/destructor of btree_set / btree_multiset enforced from an arbitrary well-formed tree of depth <= 2 against the view (count of a ghost key, rank in leaf-chain order)',
+         'Bounded: leaf/inner slots 4/4, depth <= 2 before and after (no growth to depth 3, no inner-level rebalancing inside a whole-tree job), 8-bit keys, set/multiset only; mutating whole-tree operations once per tuple of leaf fill degrees (keys symbolic; quick: the tuples reaching each leaf-level case, thorough: every tuple for roots with 1-2 separators). NOT decided: erase(iterator) on a multiset under an inner root, erase(key) of all duplicates, map/multimap, copy/assign/swap/bulk_load/comparisons. Whole-tree jobs: assert-mode enforcement (assigns not checked), pointer and bounds checks only.'),
  'C02': ('the same jobs as C01: the verify()-conditions as representation invariant (uniform depth, fill, order, separators, leaf chain, stats) after every mutating operation, and the node allocation ledger (live blocks == nodes; freed nodes never touched)',
          'Bounded as C01: slots 4/4, depth <= 2, set/multiset over 8-bit keys; element types with non-trivial lifetimes not covered.'),
  'C05': ('the property statement as contract of every entry point and algorithm variant: returns target+size, inputs advanced by size in total and within range, output ordered (stable: ties in (sequence, position) order), output == exactly the taken elements, nothing smaller left behind; tagged elements and ghost indices',
@@ -34,7 +34,17 @@ TEXT = {
          'Bounded configuration k <= 8 players; histories unbounded by induction. Unguarded variants under their documented precondition.'),
 }
 # properties whose checks have been run to completion on the unchanged tree (exit 0); extend as checks are validated
-CLAIMED = ['C09', 'C11', 'C12', 'C13', 'C14', 'C15', 'C16', 'C17', 'C18', 'C19', 'C20']
+CLAIMED = ['C01', 'C02', 'C09', 'C11', 'C12', 'C13', 'C14', 'C15', 'C16', 'C17', 'C18', 'C19', 'C20']
+
+def technique(mod):
+    modes = set(j.mode for j in mod.jobs('thorough'))
+    base = "contract-based deductive verification with CBMC 6.11 on the real functions (clang -O0 IR lowered to C by tools/ir2c.py each run): "
+    dfcc = "function contracts (requires/ensures/assigns) enforced by goto-instrument --dfcc --enforce-contract"
+    asrt = "function contracts (requires/ensures, old-state snapshots) enforced by rewriting them into assume/assert around the call (tools/c2n.py; assigns clause not checked), loops closed by unwinding assertions"
+    if modes == {'dfcc'}: return base + dfcc
+    if modes == {'assert'}: return base + asrt
+    return base + dfcc + " for some jobs and " + asrt + " for the others (evidence names the mode per job)"
+
 
 def main():
     props = [json.loads(l) for l in open(os.path.join(here, 'properties.jsonl'))]
@@ -54,7 +64,7 @@ def main():
                             "evidence_file": "/verif/evidence/%s.json" % pid, "replay_cmd_template": "./check %s --replay {path}" % pid, "engine": "cbmc-contracts",
                             "level_claimed": {"category": mod.META.get('level', 'proof'), "text": txt, "design_ref": "DESIGN.md section 4, " + pid},
                             "level_note": "trusted: clang -O0 lowering, tools/ir2c.py, CBMC + SAT back end, tools/ir_prelude.c models. " + note,
-                            "technique": "CBMC function contracts (requires/ensures/assigns) enforced with goto-instrument --dfcc on the clang-lowered real functions"})
+                            "technique": technique(mod)})
     for p in props:
         if p['id'] not in claimed:
             m["not_applicable"].append({"property_id": p['id'], "reason": na.get(p['id'], "check not built yet in this session (see DESIGN.md section 9 for the build order)")})
